@@ -90,10 +90,110 @@ class Unit:
         self.canaries = [CANARY_PRELUDE] if model == 'R' else []
         self.scoped_subst = []      # [(pred(im), dict)]: substitutions that apply to particular impls only (rule R4)
         self.assoc_fix = {}         # textual fixes of associated-type paths after substitution (rule R4)
+        self.hint_packs = []        # (pred(im, f), poly_texts, lemma_texts): proof hints needed when a matching function is verified with its body
+        self.close_over_callees = True   # verify with bodies every function the owned functions (transitively) call
         self.assume_pred = None     # (im, f) -> True: emit the contract only (external_body); proved in its home unit
         self.trait_extras = {}      # trait -> dict(decl_items, requires{method: [..]}, impl_items(im) -> text)
 
     # ------------------------------------------------------------------
+    # ------------------------------------------------------------------ callee closure
+    FIELD_TYPES = {'Matrix2': ['Vector2'], 'Matrix3': ['Vector3'], 'Matrix4': ['Vector4', 'Vector3'],
+                   'Quaternion': ['Vector3'], 'Basis2': ['Matrix2', 'Vector2'], 'Basis3': ['Matrix3', 'Vector3', 'Quaternion'],
+                   'Point1': ['Vector1'], 'Point2': ['Vector2'], 'Point3': ['Vector3', 'Vector4'],
+                   'Vector2': [], 'Vector3': [], 'Vector4': ['Vector3'],
+                   'Euler': ['Rad', 'Deg'], 'Deg': ['Rad'], 'Rad': ['Deg'],
+                   'Decomposed': ['Vector3', 'Vector2', 'Quaternion', 'Basis2', 'Basis3', 'Point2', 'Point3', 'Matrix3', 'Matrix4'],
+                   'PerspectiveFov': ['Perspective', 'Rad', 'Matrix4'], 'Perspective': ['Matrix4'], 'Ortho': ['Matrix4'], 'PlanarFov': ['Matrix4', 'Rad']}
+    OPS = [(r'\+=', 'add_assign'), (r'-=', 'sub_assign'), (r'\*=', 'mul_assign'), (r'/=', 'div_assign'), (r'%=', 'rem_assign'),
+           (r'(?<![+\-*/%=<>!&|])\+(?!=)', 'add'), (r'(?<![+\-*/%=<>!&|(,])-(?![=>])', 'sub'), (r'(?<=[(,=\s])-(?=[A-Za-z_(])', 'neg'),
+           (r'(?<![+\-*/%=<>!&|(,])\*(?!=)', 'mul'), (r'(?<![+\-*/%=<>!&|/])/(?![=/*])', 'div'), (r'(?<![+\-*/%=<>!&|])%(?!=)', 'rem'),
+           (r'==|!=', 'eq'), (r'(?<![-=<>])[<>]=?(?![<>=])', 'partial_cmp')]
+
+    def _names_and_scope(self, im, f):
+        src = self.src
+        if f.body is None:
+            return set(), set()
+        body = src.p.text(f.body[0], f.body[1])
+        sig = src.p.text(f.sig[0], f.sig[1])
+        names = set(re.findall(r'([a-z_][a-z0-9_]*)\s*(?:::<[^>]*>)?\s*\(', body))
+        for rx, nm in self.OPS:
+            if re.search(rx, body):
+                names.add(nm)
+        if '.into()' in body or 'from(' in body or 'From::' in body:
+            names.add('from')
+        if '.clone()' in body:
+            names.add('clone')
+        text = (im.header if im is not None else '') + ' ' + sig + ' ' + body
+        scope = set(t for t in re.findall(r'\b([A-Z][A-Za-z0-9]*)\b', text) if t in src.structs)
+        if re.search(r'\bA\b', text):
+            scope |= {'Rad', 'Deg'}
+        if re.search(r'\b[PR]\b', text) and 'Decomposed' in text:
+            scope |= {'Point2', 'Point3', 'Quaternion', 'Basis2', 'Basis3'}
+        ft = dict(self.FIELD_TYPES)
+        ft.update(getattr(self, 'field_types_override', {}))
+        for t in list(scope):          # one level only: the types a value of a mentioned type directly contains / converts to
+            scope |= set(ft.get(t, []))
+        return names, scope
+
+    def _close(self, chosen):
+        """own set := functions for which assume_pred is False, closed under (syntactic, type-scoped) callees"""
+        src = self.src
+        nodes = []      # (im, f)
+        for im, ms in chosen:
+            tn = trait_name(im.trait)
+            fns = [x for x in im.items if isinstance(x, Fn)]
+            have = set(x.name for x in fns)
+            for f in fns:
+                if ms is None or f.name in ms:
+                    nodes.append((im, f))
+            if tn in src.traits:
+                for f in src.traits[tn].items:
+                    if isinstance(f, Fn) and f.body is not None and f.name not in have and (ms is None or f.name in ms):
+                        nodes.append((im, f))
+        for key in self.free_fns:
+            nodes.append((None, src.free_fns[key]))
+        own = set()
+        for im, f in nodes:
+            if not self.assume_pred(im, f):
+                own.add((id(im), f.name, id(f)))
+        info = {}
+        by_name = {}
+        for im, f in nodes:
+            st = re.match(r"&?\s*(?:'[a-z]+\s+)?(?:mut\s+)?([A-Za-z_][A-Za-z0-9_]*)", im.selfty).group(1) if im is not None else None
+            by_name.setdefault(f.name, []).append((im, f, st))
+        work = [(im, f) for im, f in nodes if (id(im), f.name, id(f)) in own]
+        while work:
+            im, f = work.pop()
+            names, scope = self._names_and_scope(im, f)
+            for nm in names:
+                for (im2, f2, st2) in by_name.get(nm, []):
+                    k = (id(im2), f2.name, id(f2))
+                    if k in own:
+                        continue
+                    if st2 is not None and st2 not in scope:
+                        continue
+                    if im2 is not None and im2.trait and trait_args(im2.trait):
+                        # operator / From impls: the argument type must be in scope too (or be the scalar)
+                        ta = re.match(r"&?\s*(?:'[a-z]+\s+)?(?:mut\s+)?([A-Za-z_][A-Za-z0-9_]*)", trait_args(im2.trait).strip())
+                        tb = ta.group(1) if ta else None
+                        if tb is not None and tb in src.structs and tb not in scope:
+                            continue
+                    own.add(k)
+                    work.append((im2, f2))
+        self.closure_added = len(own)
+        self.assume_pred = lambda im, f, own=own: (id(im), f.name, id(f)) not in own
+        self._include_hint_packs([(im, f) for im, f in nodes if (id(im), f.name, id(f)) in own])
+
+    def _include_hint_packs(self, verified):
+        for pred, polys, lemmas in self.hint_packs:
+            if any(pred(im, f) for im, f in verified):
+                for t in polys:
+                    if t not in self.poly_texts:
+                        self.poly_texts.append(t)
+                for t in lemmas:
+                    if t not in self.lemma_texts:
+                        self.lemma_texts.append(t)
+
     def is_crate_trait(self, name):
         return name in self.src.traits and name not in ('BaseNum', 'BaseFloat') and name not in self.drop_traits
 
@@ -167,6 +267,11 @@ class Unit:
             if not ok:
                 continue
             chosen.append((im, ms))
+        if self.assume_pred is not None and self.close_over_callees:
+            self._close(chosen)
+        elif self.hint_packs:
+            allfns = [(im, f) for im, ms in chosen for f in im.items if isinstance(f, Fn)] + [(None, self.src.free_fns[k]) for k in self.free_fns]
+            self._include_hint_packs(allfns)
         # trait method sets
         used_traits = {}
         for im, ms in chosen:
